@@ -271,12 +271,45 @@ def run(prop, tier, replay=None):
                                        r['scn']['fault'], r['scn']['file'], r['scn']['func'], r['scn']['line'], r['scn']['in_target'], r['scn']['target_finished'],
                                        r['obs']['term_ret'], r['obs']['dead_observed'], r['obs']['reads'][:1], r['obs']['us_end'], r['obs']['stream']),
                                     {'case': r['case']}))
+    unrepro = []
+    from ..report import split
+    _, fresh = split(violations)
+    if fresh:
+        # A failing life that is not a listed finding is run again (twice) before it is reported: outcomes that depend on the
+        # machine's load (a graceful request that takes longer than the server's 1 s patience and is then forced) do not
+        # repeat, a broken tree does.
+        vmap = {}
+        for rid in per:
+            vmap[id(byid[rid]['case'])] = rid
+        todo = [v for v in fresh if id(v.replay.get('case')) in vmap][:16]
+        farm2 = Farm(8)
+        try:
+            again = farm2.run([v.replay['case'] for v in todo for _ in range(2)])
+        finally:
+            farm2.close()
+        recs2 = []
+        for i, r2 in enumerate(again):
+            if 'error' in r2:
+                continue
+            r2['id'] = 'r%d' % i
+            recs2.append(_strip(r2))
+        fails2 = tlc.judge('LifeJudge', recs2, name='rejudge', timeout=600)[0] if recs2 else []
+        failed2 = {}
+        for rid2, clause in fails2:
+            failed2.setdefault(int(rid2[1:]) // 2, set()).add(clause)
+        drop = set()
+        for k, v in enumerate(todo):
+            if not (failed2.get(k, set()) & set(per[vmap[id(v.replay['case'])]])):
+                drop.add(id(v))
+                unrepro.append('not reproduced in 2 re-runs (timing / load dependent outcome, not reported): ' + v.what[:300])
+        violations = [v for v in violations if id(v) not in drop]
     landed = [r for r in results if r['scn'].get('landed') == 'T']
     checked, unmapped, dr = conformance(results, allowed, prop == 'C16')
     ev.cov['conformance_checked'] = checked
     ev.cov['conformance_unmapped'] = unmapped
     ev.cov['conformance_drift'] = len(dr)
-    drift = dr[:5] + (['... %d more' % (len(dr) - 5)] if len(dr) > 5 else [])
+    drift = dr[:5] + (['... %d more' % (len(dr) - 5)] if len(dr) > 5 else []) + unrepro[:5]
+    ev.cov['violations_not_reproduced'] = len(unrepro)
     ev.cov['traces_validated_against_impl'] = checked - len(dr)
     ev.cov['evaluations'] = len(records)
     ev.cov['distinct_nontrivial'] = len(set((r['scn']['kind'], r['scn']['persistent'], r['scn']['ending'], r['scn']['fault'], r['scn']['file'],
